@@ -253,15 +253,21 @@ type GoldenSpec struct {
 	NoTime    bool
 	Svn       uint32
 	CaBundle  []byte
+	Policy    uint64 // endorsed guest policy (0: ProdPolicy)
+	Chain     []byte // the document's own ca_bundle (PEM), as the signer fills it in
 }
 
 func (g GoldenSpec) Proto() *epb.VMGoldenMeasurement {
-	d := &epb.VMGoldenMeasurement{Digest: g.Digest, ClSpec: g.ClSpec, Commit: g.Commit, Cert: g.Cert}
+	d := &epb.VMGoldenMeasurement{Digest: g.Digest, ClSpec: g.ClSpec, Commit: g.Commit, Cert: g.Cert, CaBundle: g.Chain}
 	if !g.NoTime {
 		d.Timestamp = timestamppb.New(g.Timestamp)
 	}
 	if g.Snp != nil || g.Svsm != nil {
-		d.SevSnp = &epb.VMSevSnp{Svn: g.Svn, Measurements: g.Snp, Policy: ProdPolicy, SvsmMeasurement: g.Svsm, CaBundle: g.CaBundle,
+		pol := ProdPolicy
+		if g.Policy != 0 {
+			pol = g.Policy
+		}
+		d.SevSnp = &epb.VMSevSnp{Svn: g.Svn, Measurements: g.Snp, Policy: pol, SvsmMeasurement: g.Svsm, CaBundle: g.CaBundle,
 			FamilyId: make([]byte, 16), ImageId: make([]byte, 16)}
 	}
 	if g.Tdx != nil {
